@@ -252,18 +252,18 @@ Proof.
   unfold take. rewrite firstn_firstn. f_equal. lia.
 Qed.
 
+Lemma cut_0 st : cut 0 st = [].
+Proof. destruct st; reflexivity. Qed.
+
 Lemma cut_cut st : forall k k', cut k' (cut k st) = cut (N.min k k') st.
 Proof.
   induction st as [|c r IH]; intros k k'; [reflexivity|].
-  cbn [cut].
-  destruct (N.eqb_spec k 0) as [->|K0].
-  { rewrite N.min_0_l. reflexivity. }
   destruct (N.eqb_spec k' 0) as [->|K0'].
-  { rewrite N.min_0_r. cbn. destruct c; try reflexivity.
-    - destruct (k <? 512); [reflexivity|]. destruct (512 + pad512 size <=? k); reflexivity.
-    - destruct (k <? 512); reflexivity.
-    - destruct (k <? 512); reflexivity.
-    - destruct (k <? 512); reflexivity. }
+  { rewrite N.min_0_r, !cut_0. reflexivity. }
+  destruct (N.eqb_spec k 0) as [->|K0].
+  { rewrite N.min_0_l, !cut_0. reflexivity. }
+  cbn [cut].
+  destruct (N.eqb_spec k 0) as [?|_]; [contradiction|].
   destruct (N.eqb_spec (N.min k k') 0) as [E|_]; [lia|].
   destruct c as [n sz c0|n|n t| |].
   - destruct (N.ltb_spec k 512) as [K1|K1].
@@ -276,17 +276,17 @@ Proof.
         destruct (N.ltb_spec (N.min k k') 512) as [?|_]; [lia|].
         destruct (N.leb_spec (512 + pad512 sz) k') as [K4|K4].
         { destruct (N.leb_spec (512 + pad512 sz) (N.min k k')) as [_|?]; [|lia].
-          rewrite IH. do 2 f_equal. lia. }
+          rewrite IH. replace (N.min k k' - (512 + pad512 sz)) with (N.min (k - (512 + pad512 sz)) (k' - (512 + pad512 sz))) by lia. reflexivity. }
         destruct (N.leb_spec (512 + pad512 sz) (N.min k k')) as [?|_]; [lia|].
-        do 3 f_equal. lia.
+        replace (N.min k k') with k' by lia. reflexivity.
       * cbn [cut]. destruct (N.eqb_spec k' 0); [contradiction|].
         destruct (N.leb_spec (512 + pad512 sz) (N.min k k')) as [?|_]; [lia|].
         destruct (N.ltb_spec k' 512) as [K3|K3].
         { destruct (N.ltb_spec (N.min k k') 512) as [_|?]; [reflexivity|lia]. }
         destruct (N.ltb_spec (N.min k k') 512) as [?|_]; [lia|].
         destruct (N.leb_spec (512 + pad512 sz) k') as [K4|K4].
-        { cbn [cut]. do 2 f_equal. unfold take. f_equal. lia. }
-        rewrite take_take. do 2 f_equal. lia.
+        { cbn [cut]. replace (N.min k k') with k by lia. reflexivity. }
+        rewrite take_take. replace (N.min k k' - 512) with (N.min (k - 512) (k' - 512)) by lia. reflexivity.
   - destruct (N.ltb_spec k 512) as [K1|K1].
     + destruct (N.ltb_spec (N.min k k') 512) as [_|?]; [|lia]. cbn [cut].
       destruct (N.eqb_spec k' 0); [contradiction|reflexivity].
@@ -294,7 +294,7 @@ Proof.
       destruct (N.ltb_spec k' 512) as [K3|K3].
       { destruct (N.ltb_spec (N.min k k') 512) as [_|?]; [reflexivity|lia]. }
       destruct (N.ltb_spec (N.min k k') 512) as [?|_]; [lia|].
-      rewrite IH. do 2 f_equal. lia.
+      rewrite IH. replace (N.min k k' - 512) with (N.min (k - 512) (k' - 512)) by lia. reflexivity.
   - destruct (N.ltb_spec k 512) as [K1|K1].
     + destruct (N.ltb_spec (N.min k k') 512) as [_|?]; [|lia]. cbn [cut].
       destruct (N.eqb_spec k' 0); [contradiction|reflexivity].
@@ -302,7 +302,7 @@ Proof.
       destruct (N.ltb_spec k' 512) as [K3|K3].
       { destruct (N.ltb_spec (N.min k k') 512) as [_|?]; [reflexivity|lia]. }
       destruct (N.ltb_spec (N.min k k') 512) as [?|_]; [lia|].
-      rewrite IH. do 2 f_equal. lia.
+      rewrite IH. replace (N.min k k' - 512) with (N.min (k - 512) (k' - 512)) by lia. reflexivity.
   - destruct (N.ltb_spec k 512) as [K1|K1].
     + destruct (N.ltb_spec (N.min k k') 512) as [_|?]; [|lia]. cbn [cut].
       destruct (N.eqb_spec k' 0); [contradiction|reflexivity].
@@ -310,14 +310,14 @@ Proof.
       destruct (N.ltb_spec k' 512) as [K3|K3].
       { destruct (N.ltb_spec (N.min k k') 512) as [_|?]; [reflexivity|lia]. }
       destruct (N.ltb_spec (N.min k k') 512) as [?|_]; [lia|].
-      rewrite IH. do 2 f_equal. lia.
+      rewrite IH. replace (N.min k k' - 512) with (N.min (k - 512) (k' - 512)) by lia. reflexivity.
   - cbn [cut]. destruct (N.eqb_spec k' 0); [contradiction|reflexivity].
 Qed.
 
 (* cutting at or beyond the end changes nothing *)
-Lemma cut_all st : good st \/ True -> forall k, members st -> bytes (st ++ footer) <= k -> cut k (st ++ footer) = st ++ footer.
+Lemma cut_all st : forall k, members st -> bytes (st ++ footer) <= k -> cut k (st ++ footer) = st ++ footer.
 Proof.
-  intros _ k Hm. revert k. induction Hm as [|c r Hc Hr IH]; intros k Hk.
+  intros k Hm. revert k. induction Hm as [|c r Hc Hr IH]; intros k Hk.
   - cbn in Hk. cbn [app footer cut].
     destruct (N.eqb_spec k 0); [lia|]. destruct (N.ltb_spec k 512); [lia|].
     destruct (N.eqb_spec (k - 512) 0); [lia|]. destruct (N.ltb_spec (k - 512) 512); [lia|].
